@@ -234,8 +234,8 @@ def gen_cases(rng, n_ridge, n_esn, n_legacy, n_run, thorough=False):
                       "ridge": str(Fraction(rng.choice([1, 2, 4]), 4)), "lr": rng.choice(["1", "1/2"]),
                       "act": rng.choice(["id", "hardtanh"]),
                       "W": rand_rows(rng, N, N, lim=2, maxpow=2), "Win": rand_rows(rng, N, din + 1, lim=2, maxpow=1),
-                      "X": Xs, "Y": Ys, "workers": [1, 2, 4] + ([8, -1] if thorough else []),
-                      "backends": ["threading"] + (["loky"] if thorough and i % 2 == 0 else []),
+                      "X": Xs, "Y": Ys, "workers": [1, 2, 4] + ([8] if thorough else []),
+                      "backends": ["threading"] + (["loky"] if thorough and i % 4 == 0 else []),
                       "dwell_seed": rng.randint(0, 10 ** 6)})
     for i in range(n_run):
         din, dout, N = rng.randint(1, 2), rng.randint(1, 2), rng.randint(2, 3)
@@ -251,7 +251,16 @@ def gen_cases(rng, n_ridge, n_esn, n_legacy, n_run, thorough=False):
     return cases
 
 
-ACTS = {"id": lambda x: x, "relu": lambda x: np.maximum(x, 0.0), "hardtanh": hardtanh}
+def act_id(x):
+    return x
+
+
+def act_relu(x):
+    return np.maximum(x, 0.0)
+
+
+# module-level functions: the multiprocessing backend pickles the ESN (and its activation) by reference
+ACTS = {"id": act_id, "relu": act_relu, "hardtanh": hardtanh}
 
 
 # ------------------------------------------------------------------------------------------ running the real library
@@ -499,7 +508,7 @@ def nontrivial(c, o):
 
 def correspondence(ctx):
     rng = ctx.rng("corr")
-    cases = gen_cases(rng, ctx.n(40, 400), ctx.n(5, 40), ctx.n(3, 20), ctx.n(4, 30), ctx.thorough)
+    cases = gen_cases(rng, ctx.n(40, 250), ctx.n(5, 30), ctx.n(3, 12), ctx.n(4, 24), ctx.thorough)
     terms, owner, keep, dist, nt = [], [], [], {}, set()
     for ci, c in enumerate(cases):
         try:
@@ -536,7 +545,7 @@ def correspondence(ctx):
                     "non-trivial = >= 2 sequences with a non-identity order or a real regrouping and a non-zero solution (ridge), "
                     ">= 2 distinct worker threads seen inside the accumulation section (esn, legacy), a non-sorted arrival order of "
                     ">= 3 sequences (run); distinct by scenario text",
-            "samples": [keep[0], keep[min(len(keep) - 1, ctx.n(40, 400))], keep[-1]],
+            "samples": [keep[0], keep[min(len(keep) - 1, ctx.n(40, 250))], keep[-1]],
             "distribution": dist, "tolerance": "1e-9 relative (qclose)",
             "failing": [dict(keep[ci], index=ci, checks=labs) for ci, labs in sorted(bad.items())], "error": err}
 
@@ -648,13 +657,13 @@ def judge(case):
 
 def oracle(ctx, scale=1):
     rng = ctx.rng("oracle")
-    cases = gen_cases(rng, ctx.n(30, 300) * scale, ctx.n(3, 24) * scale, ctx.n(3, 16) * scale, ctx.n(3, 20) * scale, ctx.thorough)
+    cases = gen_cases(rng, ctx.n(30, 150) * scale, ctx.n(3, 16) * scale, ctx.n(3, 8) * scale, ctx.n(3, 16) * scale, ctx.thorough)
     out, dist = [], {}
-    reps = ctx.n(1, 3)
+    reps = ctx.n(1, 2)
     for c in cases:
         dist[c["kind"]] = dist.get(c["kind"], 0) + 1
         for rep in range(reps if c["kind"] in ("esn", "legacy") else 1):
-            c2 = dict(c, dwell_seed=c.get("dwell_seed", 0) + 7919 * rep) if rep else c
+            c2 = dict(c, dwell_seed=c.get("dwell_seed", 0) + 7919 * rep, backends=["threading"]) if rep else c
             vs = _judge_all(c2, dwell_ms=1.0 + rep)
             out += vs
             if vs:
